@@ -85,7 +85,9 @@ func main() {
 
 	replace := map[string]string{}
 	var sites []siteInfo
-	nClock, nGlobal, nExec := 0, 0, 0
+	nClock, nGlobal, nExec, nSync := 0, 0, 0, 0
+	var unowned []string
+	nGo, nChan := 0, 0
 	for i, f := range pkg.Syntax {
 		fn := pkg.CompiledGoFiles[i]
 		if strings.HasSuffix(fn, "_test.go") {
@@ -119,6 +121,19 @@ func main() {
 				nExec++
 			}
 		}
+		ast.Inspect(f, func(n ast.Node) bool {
+			switch x := n.(type) {
+			case *ast.GoStmt:
+				nGo++
+			case *ast.SendStmt:
+				nChan++
+			case *ast.UnaryExpr:
+				if x.Op == token.ARROW {
+					nChan++
+				}
+			}
+			return true
+		})
 		usesTime := false
 		for _, imp := range f.Imports {
 			if imp.Path.Value == `"time"` {
@@ -198,6 +213,47 @@ func main() {
 			return true
 		}, func(c *astutil.Cursor) bool {
 			switch n := c.Node().(type) {
+			case *ast.CallExpr:
+				// 5. synchronisation seam: sync.Mutex / RWMutex / Once / Map operations go through hooks,
+				// so that the cooperative scheduler sees them (blocking, happens-before edges)
+				sel, ok := n.Fun.(*ast.SelectorExpr)
+				if !ok {
+					return true
+				}
+				selection := pkg.TypesInfo.Selections[sel]
+				if selection == nil || selection.Kind() != types.MethodVal || len(selection.Index()) != 1 {
+					return true
+				}
+				rt := selection.Recv()
+				isPtr := false
+				if p, ok := rt.(*types.Pointer); ok {
+					rt, isPtr = p.Elem(), true
+				}
+				named, ok := rt.(*types.Named)
+				if !ok || named.Obj().Pkg() == nil || named.Obj().Pkg().Path() != "sync" {
+					return true
+				}
+				recv := sel.X
+				if !isPtr {
+					recv = &ast.UnaryExpr{Op: token.AND, X: sel.X}
+				}
+				tn, m := named.Obj().Name(), sel.Sel.Name
+				switch {
+				case (tn == "Mutex" || tn == "RWMutex") && (m == "Lock" || m == "Unlock" || m == "RLock" || m == "RUnlock"):
+					c.Replace(&ast.CallExpr{Fun: ast.NewIdent("verif" + tn + m), Args: []ast.Expr{recv}})
+					changed = true
+					nSync++
+				case tn == "Once" && m == "Do" && len(n.Args) == 1:
+					c.Replace(&ast.CallExpr{Fun: ast.NewIdent("verifOnceDo"), Args: []ast.Expr{recv, n.Args[0]}})
+					changed = true
+					nSync++
+				case tn == "Map":
+					sel.X = &ast.CallExpr{Fun: ast.NewIdent("verifMapOp"), Args: []ast.Expr{recv}}
+					changed = true
+					nSync++
+				case tn == "WaitGroup" || tn == "Cond":
+					unowned = append(unowned, rel(n.Pos())+" sync."+tn+"."+m)
+				}
 			case *ast.Ident:
 				// 3. shared-state access points
 				obj, ok := pkg.TypesInfo.Uses[n].(*types.Var)
@@ -331,10 +387,11 @@ func main() {
 	rep, _ := json.MarshalIndent(map[string]any{
 		"map_range_sites": sites, "map_range_owned": owned, "map_range_total": len(sites),
 		"clock_calls": nClock, "global_accesses": nGlobal, "globals": globalNames, "exec_imports": nExec,
+		"sync_operations": nSync, "sync_operations_not_owned": unowned, "go_statements": nGo, "channel_operations": nChan,
 	}, "", " ")
 	os.WriteFile(filepath.Join(*out, "report.json"), rep, 0o644)
-	fmt.Printf("overlay: %d files, %d/%d map-range sites owned, %d clock calls, %d accesses to %d package-level variables, %d os/exec imports\n",
-		len(replace), owned, len(sites), nClock, nGlobal, len(globalNames), nExec)
+	fmt.Printf("overlay: %d files, %d/%d map-range sites owned, %d clock calls, %d accesses to %d package-level variables, %d os/exec imports, %d sync operations (%d not owned), %d go statements, %d channel operations\n",
+		len(replace), owned, len(sites), nClock, nGlobal, len(globalNames), nExec, nSync, len(unowned), nGo, nChan)
 }
 
 func fatal(f string, a ...any) {
@@ -467,6 +524,7 @@ package in_toto
 
 import (
 	"sort"
+	"sync"
 	"time"
 )
 
@@ -514,6 +572,54 @@ func verifNow() time.Time {
 
 func verifUntil(t time.Time) time.Duration { return t.Sub(verifNow()) }
 func verifSince(t time.Time) time.Duration { return verifNow().Sub(t) }
+
+// VerifSyncHook is called for every sync.Mutex / RWMutex / Once / Map operation of the
+// package; it returns true if it performed the operation itself.
+var VerifSyncHook func(op string, obj any, f func()) bool
+
+func verifMutexLock(m *sync.Mutex) {
+	if VerifSyncHook == nil || !VerifSyncHook("Lock", m, nil) {
+		m.Lock()
+	}
+}
+func verifMutexUnlock(m *sync.Mutex) {
+	if VerifSyncHook == nil || !VerifSyncHook("Unlock", m, nil) {
+		m.Unlock()
+	}
+}
+func verifRWMutexLock(m *sync.RWMutex) {
+	if VerifSyncHook == nil || !VerifSyncHook("Lock", m, nil) {
+		m.Lock()
+	}
+}
+func verifRWMutexUnlock(m *sync.RWMutex) {
+	if VerifSyncHook == nil || !VerifSyncHook("Unlock", m, nil) {
+		m.Unlock()
+	}
+}
+func verifRWMutexRLock(m *sync.RWMutex) {
+	if VerifSyncHook == nil || !VerifSyncHook("RLock", m, nil) {
+		m.RLock()
+	}
+}
+func verifRWMutexRUnlock(m *sync.RWMutex) {
+	if VerifSyncHook == nil || !VerifSyncHook("RUnlock", m, nil) {
+		m.RUnlock()
+	}
+}
+func verifOnceDo(o *sync.Once, f func()) {
+	if VerifSyncHook == nil || !VerifSyncHook("Do", o, f) {
+		o.Do(f)
+	}
+}
+func verifMapOp(m *sync.Map) *sync.Map {
+	if VerifSyncHook != nil {
+		VerifSyncHook("Atomic", m, nil)
+	}
+	return m
+}
+
+var _ sync.Mutex
 
 func verifRead[T any](p *T, name string) *T {
 	if VerifAccessHook != nil {
